@@ -597,6 +597,18 @@ pub fn c13_case(bytes: &[u8], stats: &mut Stats, counting: bool, cfg: &GenConfig
         ExecOutcome::Rows(r) => r,
         ExecOutcome::ArgError(_) => return Verdict::Discard("args-rejected(C12)".into()),
         ExecOutcome::Panic(p, _) => {
+            // the engine's own debug assertion in `construct_outputs` states this very property (the row's key set equals
+            // the declared output names); the harness builds with debug assertions, so there a row with missing or extra
+            // names surfaces as that assertion failing instead of as a row
+            if p.file() == "execution.rs"
+                && p.message.contains("assertion `left == right` failed")
+                && !p.message.contains("mismatch on whether the fold")
+            {
+                return Verdict::Fail {
+                    sig: "c13:row-keys-differ-from-declared-outputs(engine-debug-assertion)".into(),
+                    msg: format!("{}\nquery:\n{}\nargs: {:?}", p.render(), case.query_text, case.args),
+                };
+            }
             return Verdict::Discard(if p.in_harness() { "adapter-misuse(C21)".into() } else { "engine-panic(C09)".into() })
         }
     };
